@@ -203,7 +203,7 @@ impl Check for C03Check {
         CheckInfo {
             id: "C03",
             level: "exploration",
-            rule: "case = one generated program (control-flow shapes 50%: tight/nested loops, self-jumps, stack-growing loops, fork bombs, jump tables, read-mask-write cycles, loops around copies; storage idioms 30%; stack-aware 10%; mutated corpus 10%) x knob swarm (iterations 1..12, forks 1..60, gas 200..30M log-uniform; fork/iteration limits lowered until the implied VM bound is <= 1.5M steps) x 3 schedules (natural, natural with other keys, seeded adversarial); the VM is driven through VM::new/execute so that stored states, visit counters and fork counters can be read, then the type checker runs on whatever state execution left. evaluations = simulated runs; non-trivial = the run ended with >= 2 VM threads; distinct = distinct (program, limits, schedule trace), counted with a hash set",
+            rule: "case = one generated program (control-flow shapes 38%: tight/nested loops, self-jumps, stack-growing loops, fork bombs, jump tables, read-mask-write cycles, loops around copies; storage idioms 30%; value-growth chains and deeply nested types 12%; stack-aware 10%; mutated corpus 10%; the first 340 cases: every combination of one of 34 opcode chains applied to its own result 36..65 times with one of 10 uses of the grown value) x knob swarm (iterations 1..12, forks 1..60, gas 200..30M log-uniform; fork/iteration limits lowered until the implied VM bound is <= 1.5M steps) x 3 schedules (natural, natural with other keys, seeded adversarial); the VM is driven through VM::new/execute so that stored states, visit counters and fork counters can be read, then the type checker runs on whatever state execution left. evaluations = simulated runs; non-trivial = the run ended with >= 2 VM threads; distinct = distinct (program, limits, schedule trace), counted with a hash set",
             assumptions: &[
                 "simulated time is the poll count of a poll_every = 1 watchdog; the VM bound (1+F*J)*(L*I+1) is implied by the three limits, the type-checker budget of 3M steps is empirical (the unifier's own limit is 100 rounds)",
                 "gas oracle allows two instructions of slack (retire-after-crossing, failing instruction visited but not charged)",
